@@ -172,7 +172,8 @@ class ASYNC:
                         return False
                     uid, callback = self._async.popleft()
 
-            # Only generators should be put back (they may not be exhausted)
-            if inspect.isgenerator(callback):
-                self._async.appendleft((uid, callback))
+            # What was taken from the queue last was not run to its end: a generator may not be
+            # exhausted, and a coroutine popped as the limit was reached was not started at all
+            # (a coroutine which was awaited is always followed by popping the next callback)
+            self._async.appendleft((uid, callback))
             return True
